@@ -591,7 +591,7 @@ def build(repo=None):
                 if isinstance(f0, Fn) and f0.node is oc and len(a0) == 1 and isinstance(a0[0], Z) and a0[0].kind == "str" and not po.attrs["kwargs"].items:
                     tagged = z3.And(tgt.t == z3.StringVal("importlib._bootstrap_external.cache_from_source"), a0[0].t == hsh)
         eng.oblige(s1, CLAUSE_GC, tagged if tagged is not None else z3.BoolVal(False))
-    collect(st.obl, ["C18", "C11"])
+    collect(st.obl, ["C18", "C11", "C10"])  # C10: a module whose stale plain bytecode is loaded has not been transformed at all
     gh = mod.func("Typechecker.get_hash")
     obligations.append({"clause": "C18:get_hash-returns-the-hash-set-at-construction", "kind": "vc", "pc": [], "path": [], "meta": {}, "serves": ["C18", "C11"],
                         "goal": z3.BoolVal(len(gh.body) == 1 and isinstance(gh.body[0], ast.Return) and ast.unparse(gh.body[0].value) == "self.hash")})
